@@ -107,11 +107,12 @@ def fieldOfMdKey (k : String) : Field :=
   else if k == "!ce" then .contentEncoding else if k == "!cl" then .contentLanguage
   else if k == "!ex" then .expires else if k == "!wr" then .websiteRedirect else .userMetadata
 
-def carryMd (P : Params) (md : Pairs) : Pairs :=
-  md.filterMap fun (k, v) =>
-    if P.carried.contains (fieldOfMdKey k) then
-      (if k == "!ex" then (P.ex v).map fun v' => (k, v') else some (k, v))
-    else none
+def carryEntry (P : Params) (p : String × String) : Option (String × String) :=
+  if P.carried.contains (fieldOfMdKey p.1) then
+    (if p.1 == "!ex" then (P.ex p.2).map fun v' => (p.1, v') else some p)
+  else none
+
+def carryMd (P : Params) (md : Pairs) : Pairs := md.filterMap (carryEntry P)
 
 /-- What an object looks like through the storage API, as far as the property is concerned. -/
 structure View where
